@@ -262,7 +262,8 @@ var ExecKernels = []ExecKernel{
 	{Family: "stringsCompare", Body: "r2 = strings.Compare(‹S›, ‹S›) == 0\nr2 = r2 != (strings.Compare(‹S›, ‹S›) == -1)\nr2 = r2 != (strings.Compare(s, t) < 0)\nr2 = r2 != (strings.Compare(‹S›, t) == 1)\nr2 = r2 != (strings.Compare(s, ‹S›) > 0)", Focus: []string{"s", "t"}},
 	// 19 new deref
 	{Family: "newDeref", Body: "r0 = *new(int) + int(*new(namedI)) + int(*new(uint8)) + int(*new(int64)) + int(*new(rune))\nr1 = *new(string) + string(*new(namedS))\nr2 = *new(bool)\nr3 = *new(float64) + float64(*new(namedF)) + float64(*new(float32))"},
-	{Family: "newDeref", Body: "x0 := *new([3]int)\ny0 := *new(pair)\nz0 := *new([]int)\nw0 := *new(map[string]int)\nv0 := *new(*int)\nfn0 := *new(func() int)\ni0 := *new(interface{})\nch0 := *new(chan int)\ncx0 := *new(complex128)\nr0 = x0[0] + y0.a + len(z0) + len(w0)\nr2 = v0 == nil && fn0 == nil && i0 == nil && ch0 == nil && cx0 == 0"},
+	{Family: "newDeref", Body: "x0 := *new([3]int)\ny0 := *new(pair)\nz0 := *new([]int)\nw0 := *new(map[string]int)\nv0 := *new(*int)\nfn0 := *new(func() int)\ni0 := *new(interface{})\nch0 := *new(chan int)\ncx0 := *new(complex128)\nr0 = x0[0] + y0.a + len(z0) + len(w0)\nr2 = v0 == nil && fn0 == nil && i0 == nil && ch0 == nil && cx0 == 0\nr1 = fmt.Sprintf(\"%T %T %T %T %v\", x0, y0, cx0, v0, cx0)"},
+	{Family: "newDeref", Body: "a0 := *new(float32)\nb0 := *new(uint8)\nc0 := *new(complex64)\nd0 := *new(rune)\ne0 := *new(complex128)\nf0 := *new(float64)\ng0 := *new(uint)\nh0 := *new(namedF)\ni0 := *new(int)\nj0 := *new(uintptr)\nvar k0 interface{} = *new(complex128)\nr1 = fmt.Sprintf(\"%T %T %T %T %T %T %T %T %T %T %T|%v %v\", a0, b0, c0, d0, e0, f0, g0, h0, i0, j0, k0, e0, k0)\nr1 += fmt.Sprint(*new(complex128), *new(int8), *new(string) == \"\", real(*new(complex128)))"},
 	// 20 time
 	{Family: "timeExprSimplify", Body: "tm := time.Unix(int64(a)*1000+int64(b), int64(c)*1000003)\nr0 = int(tm.Unix() / 1000)\nr0 += int(tm.UnixNano()*1000) % 1000003", Focus: []string{"a", "b", "c"}},
 	{Family: "timeExprSimplify", Body: "tm := time.Unix(int64(a)*1000+int64(b), int64(c)*1000003)\nptm := &tm\nr0 = int(ptm.Unix() / 1000)", Focus: []string{"a", "b", "c"}},
